@@ -215,10 +215,16 @@ pub fn post_check<S: Sut>(map: &S, model: &Model, before: &St<S>, op: Op, uni: &
     (out, Some((w, key)))
 }
 
-struct Cand<S: Sut> {
+/// a candidate successor: only the key is kept while a layer is expanded; the state itself is
+/// re-computed (clone of the parent + the same operation) for the one winner per key
+struct Cand {
     parent: u32,
+    /// index of the parent in the current frontier
+    fidx: u32,
     op_idx: u32,
-    st: St<S>,
+    op: Op,
+    key: Box<[u8]>,
+    taint: u8,
 }
 
 type Sig = (String, String, String);
@@ -227,7 +233,8 @@ type Sig = (String, String, String);
 pub const TAINT_HORIZON: u8 = 3;
 
 struct Partial<S: Sut> {
-    cands: Vec<Cand<S>>,
+    _s: std::marker::PhantomData<S>,
+    cands: Vec<Cand>,
     /// per signature: occurrences and the least (history length, history) witness
     viols: HashMap<Sig, (u64, Found)>,
     transitions: u64,
@@ -242,6 +249,7 @@ struct Partial<S: Sut> {
 impl<S: Sut> Partial<S> {
     fn new() -> Self {
         Partial {
+            _s: std::marker::PhantomData,
             cands: vec![],
             viols: HashMap::new(),
             transitions: 0,
@@ -298,6 +306,7 @@ fn is_known(cfg: &Config, v: &Viol) -> bool {
 #[allow(clippy::too_many_arguments)]
 fn expand<S: Sut>(
     id: u32,
+    fidx: u32,
     st: &St<S>,
     cfg: &Config,
     uni: &Universe,
@@ -401,27 +410,18 @@ fn expand<S: Sut>(
                 if visited.contains_key(&key) {
                     continue;
                 }
-                let mk = |map: S, model: Model, _w: Walk, key: Box<[u8]>| St {
-                    map,
-                    model,
-                    walk_cell: std::sync::OnceLock::new(),
-                    width: uni.width,
-                    key,
-                    depth: st.depth + 1,
-                    hist: Some(Arc::new(HistNode { op, parent: st.hist.clone() })),
-                    taint,
-                };
+                drop((map, model, w));
                 if let Some(&ci) = local_new.get(&key) {
                     // keep the least (parent, op_idx)
                     let c = &part.cands[ci];
                     if (c.parent, c.op_idx) <= (id, op_idx as u32) {
                         continue;
                     }
-                    part.cands[ci] = Cand { parent: id, op_idx: op_idx as u32, st: mk(map, model, w, key) };
+                    part.cands[ci] = Cand { parent: id, fidx, op_idx: op_idx as u32, op, key, taint };
                     continue;
                 }
                 local_new.insert(key.clone(), part.cands.len());
-                part.cands.push(Cand { parent: id, op_idx: op_idx as u32, st: mk(map, model, w, key) });
+                part.cands.push(Cand { parent: id, fidx, op_idx: op_idx as u32, op, key, taint });
             }
         }
     }
@@ -462,7 +462,7 @@ pub fn explore_collect<S: Sut>(uni: &Universe, cfg: &Config, observers: &[(&'sta
                     let mut i = t;
                     while i < frontier_ref.len() {
                         let (id, st) = &frontier_ref[i];
-                        expand(*id, st, cfg, uni, observers, visited_ref, &mut local_new, &mut part, cfg.worker_base + t);
+                        expand(*id, i as u32, st, cfg, uni, observers, visited_ref, &mut local_new, &mut part, cfg.worker_base + t);
                         i += threads;
                     }
                     part
@@ -471,7 +471,7 @@ pub fn explore_collect<S: Sut>(uni: &Universe, cfg: &Config, observers: &[(&'sta
             hs.into_iter().map(|h| h.join().expect("explorer worker died")).collect()
         });
         // merge deterministically
-        let mut cands: Vec<Cand<S>> = vec![];
+        let mut cands: Vec<Cand> = vec![];
         for mut p in parts {
             rep.transitions += p.transitions;
             rep.self_loops += p.self_loops;
@@ -502,25 +502,71 @@ pub fn explore_collect<S: Sut>(uni: &Universe, cfg: &Config, observers: &[(&'sta
                 }
             }
         }
-        cands.sort_by_key(|c| (c.parent, c.op_idx));
-        let mut next: Vec<(u32, St<S>)> = vec![];
+        cands.sort_by(|a, b| (a.parent, a.op_idx).cmp(&(b.parent, b.op_idx)));
+        // one winner per new key (the least (parent, operation)), ids in that order
+        let mut winners: Vec<(u32, Cand)> = vec![];
         for c in cands {
-            if visited.contains_key(&c.st.key) {
+            if visited.contains_key(&c.key) {
                 continue;
             }
             let id = visited.len() as u32;
-            visited.insert(c.st.key.clone(), id);
-            {
-                // transient walk: not stored in the state
-                let (w, _, _) = walk(&c.st.map.dump(), uni.width);
-                if shapes.insert(shape_key(&w, uni)) && is_canonical(&w) {
-                    rep.canonical_states += 1;
-                }
+            visited.insert(c.key.clone(), id);
+            winners.push((id, c));
+        }
+        // phase 2: materialise the winners (clone of the parent + the same deterministic operation)
+        let cx = Cx { uni, canonical: cfg.alpha == Alphabet::Canonical, deep: cfg.deep, deep_find_sides: true };
+        let threads2 = cfg.threads.max(1).min(winners.len().max(1));
+        let winners_ref = &winners;
+        let frontier_ref = &frontier;
+        let cx_ref = &cx;
+        let mut built: Vec<(usize, St<S>, Box<[u8]>, bool)> = std::thread::scope(|s| {
+            let mut hs = vec![];
+            for t in 0..threads2 {
+                hs.push(s.spawn(move || {
+                    let mut out = vec![];
+                    let mut i = t;
+                    while i < winners_ref.len() {
+                        let (_, c) = &winners_ref[i];
+                        let (_, pst) = &frontier_ref[c.fidx as usize];
+                        let mut map = pst.map.clone();
+                        let mut model = pst.model.clone();
+                        let tok = (pst.depth + 1) * 1000;
+                        let _ = guarded(|| map.apply(&mut model, pst.walk(), c.op, tok, cx_ref));
+                        let (w, _, _) = walk(&map.dump(), uni.width);
+                        let sk = shape_key(&w, uni);
+                        let canon = is_canonical(&w);
+                        out.push((
+                            i,
+                            St {
+                                map,
+                                model,
+                                walk_cell: std::sync::OnceLock::new(),
+                                width: uni.width,
+                                key: c.key.clone(),
+                                depth: pst.depth + 1,
+                                hist: Some(Arc::new(HistNode { op: c.op, parent: pst.hist.clone() })),
+                                taint: c.taint,
+                            },
+                            sk,
+                            canon,
+                        ));
+                        i += threads2;
+                    }
+                    out
+                }));
             }
-            if rep.samples.len() < 3 && c.st.depth >= 3 {
-                rep.samples.push(history_of(&c.st.hist).iter().map(|o| o.describe(uni)).collect::<Vec<_>>().join(" ; "));
+            hs.into_iter().flat_map(|h| h.join().expect("explorer worker died")).collect()
+        });
+        built.sort_by_key(|b| b.0);
+        let mut next: Vec<(u32, St<S>)> = Vec::with_capacity(built.len());
+        for (i, st, sk, canon) in built {
+            if shapes.insert(sk) && canon {
+                rep.canonical_states += 1;
             }
-            next.push((id, c.st));
+            if rep.samples.len() < 3 && st.depth >= 3 {
+                rep.samples.push(history_of(&st.hist).iter().map(|o| o.describe(uni)).collect::<Vec<_>>().join(" ; "));
+            }
+            next.push((winners[i].0, st));
         }
         let old = std::mem::replace(&mut frontier, next);
         if let Some(c) = collect.as_mut() {
